@@ -39,6 +39,10 @@ def check(ctx):
     c07.disarm(ctx, P, views, iters)
     c11.call_sites(ctx, P, views, iters)
     c01.index_agreement(ctx, P, views, iters)
+    # book-keeping whose failure mode is an exception (list.remove of an absent customer) or a wrong stop count
+    from . import c12
+    c12.interrupted_flag(ctx, P, views, iters)
+    c01.linear_node(ctx, P, views, iters)
     ctx.assume("user callbacks (distributions, routing functions, disciplines, baulking functions) do not raise")
     ctx.assume("attributes of Individual objects set by the node (class_change_date, reneging_date, route, PS fields) are not tracked by R9: they are read under the same configuration guard that assigns them")
 
